@@ -14,6 +14,7 @@ import (
 	"os"
 	"path/filepath"
 	"regexp"
+	"runtime"
 	"runtime/debug"
 	"runtime/metrics"
 	"slices"
@@ -213,6 +214,13 @@ func genLines(r interface{ IntN(int) int }, n int, includes []string, damage boo
 				// a $GENERATE whose text runs over several lines: the lexer reads \\" as an escaped
 				// backslash and an opening quote, so the following lines belong to the directive
 				hi := []int{1, 3, 20, 20, 300}[r.IntN(5)]
+				if r.IntN(3) == 0 {
+					// ... and the line smuggled into the expansion is itself a $GENERATE: nested, whichever
+					// step it falls into and however many records the directive had left at that point
+					lo := r.IntN(3)
+					out = append(out, fmt.Sprintf("$GENERATE %d-%d na TXT \\\\\"", lo, lo+[]int{0, 0, 1, 4}[r.IntN(4)]), fmt.Sprintf("$$GENERATE 0-%d nb$$ A 10.0.0.1 ;\"", []int{3, 3, 40, 65535}[r.IntN(4)]))
+					break
+				}
 				out = append(out, fmt.Sprintf("$GENERATE %d-%d a$ TXT \\\\\"x", r.IntN(2), hi), "b$ A 192.0.2.$", "c$ TXT \\\\\"y")
 			case 0:
 				out = append(out, "nul\x00byte 300 IN A 192.0.2.1")
@@ -825,6 +833,11 @@ func runZone(sc *Scenario, res *core.Result, logf func(string, ...any)) {
 		if strings.Contains(l, "$$GENERATE") && balanced(sc.Files[0].Lines[:i]) {
 			nested = true
 		}
+		// the two-line form: the directive's text runs on over the newline (for the zone lexer \\" opens a
+		// string), the second line of the expansion is a $GENERATE
+		if strings.HasPrefix(l, "$$GENERATE") && i > 0 && strings.HasPrefix(sc.Files[0].Lines[i-1], "$GENERATE ") && strings.HasSuffix(sc.Files[0].Lines[i-1], " na TXT \\\\\"") && balanced(sc.Files[0].Lines[:i-1]) {
+			nested = true
+		}
 	}
 	// memory proportional to the input: no single record may dwarf the line it came from
 	maxLine := 0
@@ -1394,6 +1407,9 @@ func runChain(sc *Scenario, res *core.Result, logf func(string, ...any)) {
 	if res.Verdict == core.OK {
 		selfIncludeThroughGenerate(sc, res, logf)
 	}
+	if res.Verdict == core.OK {
+		manyReadRRThroughInclude(sc, res, logf)
+	}
 }
 
 // selfIncludeThroughGenerate: a file that includes itself from inside a
@@ -1594,6 +1610,57 @@ func runConcurrent(t *testing.T, sc *Scenario, res *core.Result, logf func(strin
 		return
 	}
 	res.Class = fmt.Sprintf("concurrent/reg=%d/%s", sc.Registrar, errClass(ref.err))
+}
+
+// manyReadRRThroughInclude: many single-record reads in a row, each of an $INCLUDE line whose file holds two
+// records: every one of them leaves its parser in the middle of the included file. Whatever the parsers share
+// must not run out. (The abandoned parsers' files are closed by the garbage collector, which is asked to.)
+func manyReadRRThroughInclude(sc *Scenario, res *core.Result, logf func(string, ...any)) {
+	dir, err := os.MkdirTemp(".", "c07-many-")
+	if err != nil {
+		return
+	}
+	defer os.RemoveAll(dir)
+	abs, err := filepath.Abs(dir)
+	if err != nil {
+		return
+	}
+	defer func() { runtime.GC(); runtime.GC() }()
+	type result struct {
+		n        int
+		err, pan string
+	}
+	os.WriteFile(abs+"/two.zone", []byte("t1 300 IN A 192.0.2.21\nt2 300 IN A 192.0.2.22\n"), 0o644)
+	many, ok := guarded(limit, func() (r result) {
+		defer func() {
+			if p := recover(); p != nil {
+				r.pan = fmt.Sprintf("%v\n%s", p, libFrames(string(debug.Stack())))
+			}
+		}()
+		for i := 0; i < 70; i++ {
+			rr, err := dns.ReadRR(strings.NewReader("$INCLUDE "+abs+"/two.zone\n"), abs+"/one.zone")
+			if err != nil || rr == nil || !strings.HasPrefix(rr.String(), "t1.") {
+				r.err = fmt.Sprintf("call %d returned %v, %v", i+1, rr, err)
+				return r
+			}
+			r.n++
+		}
+		return r
+	})
+	if !ok {
+		hang(res, "reading one record through an $INCLUDE, many times over,")
+		return
+	}
+	res.Bump("oracle.P1_abandoned_parsers_do_not_block_later_ones")
+	switch {
+	case many.pan != "":
+		res.Fail("P2", "panic:"+firstFrame(many.pan), "ReadRR of an $INCLUDE line panicked: %s", many.pan)
+		return
+	case many.err != "":
+		res.Fail("P3", "readrr-through-include", "ReadRR of an $INCLUDE line whose file holds two records, repeated: %s", many.err)
+		return
+	}
+	logf("%d single-record reads through an $INCLUDE", many.n)
 }
 
 // runSmall: ReadRR and ReadPrivateKey over a faulty reader.
